@@ -192,5 +192,98 @@ def u_get_solution_paths():
                 callee_contracts=["G.successors(v) enumerates exactly the out-neighbours of v", "SolverWrapper.get_values(binary_values=True) (proved in C12)"])
 
 
+# ---------------------------------------------------------------------------------------------
+# AbstractSourceSinkGraph._augment_with_source_sink: where routes may start and end
+
+def u_augment():
+    BASE = z3.Function("base_edge", INT, INT, BOOL)
+    NODEP = z3.Function("base_node", INT, BOOL)
+    NAT = z3.Function("base_node_at", INT, INT)
+    INDEG0, OUTDEG0 = z3.Function("base_in_degree", INT, INT), z3.Function("base_out_degree", INT, INT)
+    STARTS, ENDS = z3.Function("is_additional_start", INT, BOOL), z3.Function("is_additional_end", INT, BOOL)
+    REL = z3.ArraySort(INT, z3.ArraySort(INT, BOOL))
+    st = {}
+
+    class EdgeList:
+        def __init__(self, what): self.what = what
+        def __add__(self, o): return EdgeList((self.what, getattr(o, "what", o)))
+        def __radd__(self, o): return EdgeList((o, self.what))
+        def __iter__(self): return iter(())
+
+    class Member:
+        def __init__(self, pred): self.pred = pred
+        def __contains__(self, x): return core.ctx().decide(self.pred(lift(x)), "member")
+
+    class Base:
+        def __init__(self, n):
+            class NodeView(SymSeq):
+                def __call__(self, data=False): return "BASE_NODES"
+            self.nodes = NodeView(n, lambda j: Sym(NAT(lift(j))), SInt, "base_nodes")
+        def in_degree(self, u): return Sym(INDEG0(lift(u)))
+        def out_degree(self, u): return Sym(OUTDEG0(lift(u)))
+        def edges(self, data=False): return "BASE_EDGES"
+
+    class Me(Tracked):
+        """the graph under construction: ghost edge relation E (z3 nested array) and node set N"""
+        def add_nodes_from(self, it): pass
+        def add_edges_from(self, it):
+            if it != "BASE_EDGES":
+                raise Unsupported("add_edges_from of something else than the base edges")
+            a, b = z3.Ints("ga gb")
+            self.E = z3.Lambda([a], z3.Lambda([b], z3.Or(self.E[a][b], BASE(a, b))))
+        def add_edge(self, u, v):
+            u, v = lift(u), lift(v)
+            self.E = z3.Store(self.E, u, z3.Store(self.E[u], v, z3.BoolVal(True)))
+            self.touched = z3.Store(z3.Store(self.touched, u, z3.BoolVal(True)), v, z3.BoolVal(True))
+        def out_edges(self, u): return EdgeList(("out", u))
+        def in_edges(self, u): return EdgeList(("in", u))
+        def __contains__(self, u):
+            u = lift(u)
+            return core.ctx().decide(z3.Or(NODEP(u), self.touched[u]), "node-in-graph")
+
+    def inv(ns, seq, done):
+        me = ns["self"]
+        d = lift(done)
+        j, a, b = z3.Ints("aj aa ab")
+        s, t, n = st["s"], st["t"], st["n"]
+        seen = lambda u: z3.Exists([j], z3.And(j >= 0, j < d, NAT(j) == u))
+        return {"source-edges-so-far=exactly-the-seen-nodes-without-in-edges-or-declared-starts":
+                    z3.ForAll([a], me.E[s][a] == z3.And(seen(a), z3.Or(INDEG0(a) == 0, STARTS(a)))),
+                "sink-edges-so-far=exactly-the-seen-nodes-without-out-edges-or-declared-ends":
+                    z3.ForAll([a], me.E[a][t] == z3.And(seen(a), z3.Or(OUTDEG0(a) == 0, ENDS(a)))),
+                "base-edges-kept-and-nothing-else-added": z3.ForAll([a, b], z3.Implies(z3.And(a != s, b != t), me.E[a][b] == BASE(a, b)))}
+
+    def h(c, f):
+        me = Me()
+        n = c.fresh_const("n_nodes", INT)
+        s, t = z3.Ints("source sink")
+        st.update(s=s, t=t, n=n)
+        j, a, b = z3.Ints("hj ha hb")
+        c.assume(n >= 0)
+        c.assume(z3.ForAll([j], z3.Implies(z3.And(j >= 0, j < n), NODEP(NAT(j)))))
+        c.assume(z3.ForAll([a], z3.Implies(NODEP(a), z3.Exists([j], z3.And(j >= 0, j < n, NAT(j) == a)))))
+        c.assume(z3.ForAll([a, b], z3.Implies(BASE(a, b), z3.And(NODEP(a), NODEP(b)))))
+        c.assume(z3.And(z3.Not(NODEP(s)), z3.Not(NODEP(t)), s != t))          # the synthetic names are fresh (f"source_{id(self)}")
+        me.base_graph = Base(n)
+        me.source, me.sink = Sym(s), Sym(t)
+        me.additional_starts, me.additional_ends = Member(STARTS), Member(ENDS)
+        me.E = z3.K(INT, z3.K(INT, z3.BoolVal(False)))
+        me.touched = z3.K(INT, z3.BoolVal(False))
+        f(me)
+        c.prove("post:source-edges=exactly-(source,u)-for-u-without-incoming-edges-or-a-declared-additional-start",
+                z3.ForAll([a], me.E[s][a] == z3.And(NODEP(a), z3.Or(INDEG0(a) == 0, STARTS(a)))), prop=P)
+        c.prove("post:sink-edges=exactly-(u,sink)-for-u-without-outgoing-edges-or-a-declared-additional-end",
+                z3.ForAll([a], me.E[a][t] == z3.And(NODEP(a), z3.Or(OUTDEG0(a) == 0, ENDS(a)))), prop=P)
+        c.prove("post:all-other-edges-are-exactly-the-caller's-edges", z3.ForAll([a, b], z3.Implies(z3.And(a != s, b != t), me.E[a][b] == BASE(a, b))), prop=P)
+        c.prove("post:nothing-enters-the-source-or-leaves-the-sink", z3.ForAll([a], z3.And(z3.Not(me.E[a][s]), z3.Not(me.E[t][a]))), prop=P)
+
+    fresh = lambda old: z3.Const(core.ctx().name("E"), REL)
+    fresh_t = lambda old: z3.Const(core.ctx().name("touched"), z3.ArraySort(INT, BOOL))
+    loops = {0: dict(inv=inv, prop=P, modifies=[(("self", "E"), fresh), (("self", "touched"), fresh_t)])}
+    return Unit("flowpaths/abstractsourcesinkgraph.py", "AbstractSourceSinkGraph._augment_with_source_sink", h, globs=dict(list=lambda x=(): x, set=lambda x=(): x), loops=loops, props=[P],
+                assumptions=["A2 networkx add_edge / add_edges_from add exactly the given edges; in_degree/out_degree are those of the base graph",
+                             "the synthetic source/sink names are not nodes of the caller's graph"])
+
+
 def all_units():
-    return [u_get_solution_paths()]
+    return [u_get_solution_paths(), u_augment()]
